@@ -405,7 +405,7 @@ PROPS = {
             {"kind": "mc", "module": "MC_Coverage", "cfg": "MC_Coverage.cfg", "workers": 6},
             {"kind": "gentrace", "module": "Gen_Faces", "cfg": {"quick": "Gen_Faces_cov.cfg", "thorough": "Gen_Faces.cfg"}, "scenario": "CONE",
              "trace_module": "Trace_Bmoc", "trace_cfg": "Trace_Bmoc.cfg", "clauses": ["panic", "no_miss"]},
-            {"kind": "rec", "profiles": ["release", "debug"], "other_profile_frac": 0.5, "scenario": "CONE", "count": {"quick": 6000, "thorough": 150000}, "trace_module": "Trace_Bmoc", "trace_cfg": "Trace_Bmoc.cfg",
+            {"kind": "rec", "profiles": ["release", "debug"], "other_profile_frac": 0.5, "scenario": "CONE", "count": {"quick": 9000, "thorough": 150000}, "trace_module": "Trace_Bmoc", "trace_cfg": "Trace_Bmoc.cfg",
              "shards": 10, "clauses": ["panic", "no_miss"]},
             {"kind": "rec", "scenario": "CONEBIG", "count": {"quick": 800, "thorough": 12000}, "trace_module": "Trace_Bmoc", "trace_cfg": "Trace_Bmoc.cfg",
              "shards": 10, "clauses": ["panic", "no_miss"]},
@@ -499,7 +499,7 @@ PROPS = {
         "assumptions": COV_ASSUME,
         "stages": [
             {"kind": "mc", "module": "MC_Geo", "cfg": {"quick": "MC_Geo.cfg", "thorough": "MC_Geo_thorough.cfg"}, "workers": 6},
-            {"kind": "rec", "profiles": ["release", "debug"], "other_profile_frac": 0.5, "scenario": "C12", "count": {"quick": 5000, "thorough": 120000}, "trace_module": "Trace_Bmoc", "trace_cfg": "Trace_Bmoc.cfg", "shards": 10},
+            {"kind": "rec", "profiles": ["release", "debug"], "other_profile_frac": 0.5, "scenario": "C12", "count": {"quick": 9000, "thorough": 120000}, "trace_module": "Trace_Bmoc", "trace_cfg": "Trace_Bmoc.cfg", "shards": 10},
         ],
     },
 }
